@@ -38,6 +38,16 @@ def write_gro_text(title, atoms, box):
     return "\n".join(out) + "\n"
 
 
+def write_pdb_text(atoms, box):
+    """atoms: list of (resid, resname, atomname, x, y, z) in nm; PDB in Angstrom (3 decimals in nm = 2 in A)"""
+    out = ["CRYST1%9.3f%9.3f%9.3f  90.00  90.00  90.00 P 1           1" % tuple(10 * b for b in box[:3])]
+    for i, (resid, resname, aname, x, y, z) in enumerate(atoms):
+        out.append("ATOM  %5d %-4s %-3s A%4d    %8.3f%8.3f%8.3f  1.00  0.00" %
+                   ((i + 1) % 100000, aname[:4], resname[:3], resid % 10000, 10 * x, 10 * y, 10 * z))
+    out.append("END")
+    return "\n".join(out) + "\n"
+
+
 # ----------------------------------------------------------------------------- helpers
 def kabsch_residual(P, Q):
     """max_i |R P_i - Q_i| over the best proper rotation R (det = +1)."""
@@ -140,7 +150,8 @@ def check_c03(ctx, job, gro, top):
         return
     if job.get("coord_text") is not None:
         exp = job["coord_box"]
-        if [float(b) for b in box[:3]] != [float(b) for b in exp[:3]]:
+        tol = 1e-9 if job.get("coord_ext") == "pdb" else 0.0      # .pdb boxes are in Angstrom: float(A)/10
+        if any(abs(float(a) - float(b)) > tol for a, b in zip(box[:3], exp[:3])):
             ctx.fail("C03", "box.input", f"output box {box} differs from the box of the input structure {exp}")
     elif o.get("box") is not None:
         if [float(b) for b in box[:3]] != [float(b) for b in o["box"]]:
